@@ -18,7 +18,11 @@ pub fn handle(words: &[&str]) -> String {
         ["perm", s] => {
             let Ok(p) = String::from_utf8(unhex(s)) else { return "0".into() };
             let body = p.strip_prefix('-').or_else(|| p.strip_prefix('/')).unwrap_or(&p);
-            let ok = if body.contains(|c: char| c.is_ascii_digit()) {
+            // a mode has no blanks in it, and "+OCTAL" is not one (GNU find removed that spelling of "/OCTAL")
+            let old_any_of = body.strip_prefix('+').is_some_and(|r| !r.is_empty() && r.bytes().all(|b| b.is_ascii_digit()));
+            let ok = if body.contains(char::is_whitespace) || old_any_of {
+                false
+            } else if body.contains(|c: char| c.is_ascii_digit()) {
                 uucore::mode::parse_numeric(0, body, false).is_ok()
             } else {
                 let mut mode = 0;
